@@ -57,6 +57,9 @@ def build(cfg, like=None):
     for k in ("output_dir", "output_label"):
         if k in c:
             kw[k] = c[k]
+    if c.get("all_defaults"):
+        # the shortest documented use: Sampler(prior_transform, log_likelihood, n_dim).run() - every option at its default
+        kw = dict(prior_transform=pt, log_likelihood=like, n_dim=t.n_dim)
     if c.get("like_args"):
         # extra positional and keyword arguments handed through the sampler to the likelihood
         kw["log_likelihood_args"] = [np.full(t.n_dim, 0.125), 0.25]
@@ -87,7 +90,10 @@ def execute(c, **runkw):
     of different sizes."""
     if not c.get("continue_with"):
         s, t, like, pt = build(c)
-        s.run(n_total=c["n_total"], progress=bool(c.get("progress")), **runkw)
+        if c.get("all_defaults"):
+            s.run(**runkw)
+        else:
+            s.run(n_total=c["n_total"], progress=bool(c.get("progress")), **runkw)
         return s, t, like, pt
     import os, shutil, tempfile
     from tvf.env import OUT
